@@ -103,6 +103,11 @@ def gen_case(rng, tier, kind=None, N=None):
         "y": y,
         "yform": rng.choice(["list", "array", "bag", "int32", "uint8", "tuple"]),
         "layout": _gen_layout(rng, N),
+        # how the bag is built: partitions may reach the tasks as lists or as lazy single-pass
+        # iterators (concatenation of mapped bags, generator partitions). ISV/JFA take len() of
+        # every partition and refuse iterators, so only the i-vector trainer is given them.
+        "bagform": (rng.choice(["plain", "plain", "concat_mapped", "generator", "mapped"])
+                    if kind == "ivector" else "plain"),
         "cfg": {"rU": rng.randint(1, 3), "rV": rng.randint(1, 2), "it": rng.randint(1, 3),
                 "rf": rng.choice([4.0, 1.0, 10.0]), "rs": rng.randint(0, 1000),
                 "dim_t": rng.randint(1, 3), "update_sigma": rng.random() < 0.6,
@@ -113,6 +118,11 @@ def gen_case(rng, tier, kind=None, N=None):
         "sched": gen_sched(rng),
         "xmodes": rng.random() < 0.5,
     }
+    if case["bagform"] == "generator":
+        # a generator cannot cross a serialisation boundary (on a real serialising executor
+        # the partition task and its consumer would have to be fused): shared memory only
+        case["sched"]["mode"] = "shared"
+        case["xmodes"] = False
     return case
 
 
@@ -134,6 +144,16 @@ def fixed_cases(tier):
                     cs["sched"] = {"mode": mode, "policy": "random", "workers": 3,
                                    "stall_p": 0.5, "seed": rng.getrandbits(32)}
                     out.append(cs)
+    # fault-free sub-batch: a single partition, shared memory, fifo order
+    for kind in KINDS:
+        for j in range(3):
+            r0 = random.Random(f"fixed12degenerate/{kind}/{j}")
+            cs = gen_case(r0, "quick", kind=kind)
+            cs["layout"] = {"type": "from_sequence", "npartitions": 1}
+            cs["xmodes"] = False
+            cs["fault_free"] = True
+            cs["sched"] = {"mode": "shared", "policy": "fifo", "workers": 1, "stall_p": 0.0, "seed": 0}
+            out.append(cs)
     # many statistics / partitions around powers of two
     counts = [15, 17, 31, 33, 65] if tier == "quick" else [15, 16, 17, 31, 32, 33, 63, 64, 65, 100, 129]
     for kind in KINDS:
@@ -216,7 +236,36 @@ def _params(kind, m):
     return [("T", np.asarray(m.T, float), "rel"), ("sigma", np.asarray(m.sigma, float), "rel")]
 
 
+def _ident(x):
+    return x
+
+
+def _gen_part(part):
+    for x in part:
+        yield x
+
+
 def _bag(case, stats):
+    b = _bag_plain(case, stats)
+    form = case.get("bagform", "plain")
+    if form == "mapped":
+        return b.map(_ident)
+    if form == "generator":
+        return b.map_partitions(_gen_part)
+    if form == "concat_mapped":
+        k = max(1, len(stats) // 2)
+        lay = case["layout"]
+        np1 = max(1, (lay.get("npartitions") or len(lay.get("parts", [1]))) // 2)
+        b1 = db.from_sequence(stats[:k], npartitions=np1).map(_ident)
+        rest = stats[k:]
+        if not rest:
+            return b1
+        b2 = db.from_sequence(rest, npartitions=max(1, np1)).map(_ident)
+        return db.concat([b1, b2])
+    return b
+
+
+def _bag_plain(case, stats):
     lay = case["layout"]
     if lay["type"] == "from_sequence":
         return db.from_sequence(stats, npartitions=lay["npartitions"])
@@ -302,7 +351,9 @@ def run_case(case, replay=None):
     rec.probe("odd_partition_count", npart % 2 == 1 and npart > 1)
     rec.probe("even_partition_count", npart % 2 == 0)
     rec.probe("unsorted_labels", case["y"] != sorted(case["y"]))
+    rec.probe("lazy_iterator_partitions", case.get("bagform") in ("concat_mapped", "generator"))
     rec.probe("mode_" + case["sched"]["mode"])
+    rec.probe("fault_free_configuration", bool(case.get("fault_free")))
     rec.probe("machine_used_before_" + str(case.get("pre")), case.get("pre") is not None)
 
     mem_exc = None
@@ -381,6 +432,8 @@ def shrink(case):
         yield dict(case, yform="array")
     if case.get("pre"):
         yield dict(case, pre=None)
+    if case.get("bagform", "plain") != "plain":
+        yield dict(case, bagform="plain")
     cfg = case["cfg"]
     if cfg["it"] > 1:
         yield dict(case, cfg=dict(cfg, it=cfg["it"] - 1))
